@@ -40,6 +40,19 @@ claim('C07', 'sibling decision-tree comparison, arm summaries of GameMode switch
       'try_convert_map pairs Borrowed/convert_ref and Owned/convert_mut. Numerical equality follows but is not computed.',
       'exported MIR; GameMode has exactly four variants; forwarding table for TryFrom confirmed by reading', 'DESIGN.md §5 C07')
 
+claim('C05', 'loop classification over MIR natural loops (float-accumulator absorption rule) + may-live guard dataflow with call-graph summaries',
+      'Decides two clauses for every loop and every guard site of the crate: float-only-exit loops cannot stall (f32 additive '
+      'accumulators need a progress guard; shrink loops need an integer-derived start), and no RefCount guard conflict exists '
+      '(RefCell panic). A loop that stalls only above 2^24*step ms is unreachable for the fixture maps. All other panic/hang corners '
+      'are numeric and not decided.',
+      'IEEE-754 absorption argument; f64 accumulators accepted under the decoder magnitude bound; one frozen guard exception '
+      '(find_repetition_interval, acyclic prev chain)', 'DESIGN.md §5 C05')
+claim('C12', 'provenance with closure / Option-combinator expansion (clamp reachability), sibling field-map comparison',
+      'Decides five clauses: calculate() = generate_state() + calculator; provided misses and provided combo reach the state only '
+      'below min(_, bound) in every mode; the 8 ScoreState conversions are mutually inverse permutations; state(), the write-back of '
+      'generate_state() and the single setters agree on one field map (24 rows). Remainder arithmetic is not decided.',
+      'exported MIR; closures and Option::{map_or, map_or_else, unwrap_or_else, ...} interpreted by the rule library', 'DESIGN.md §5 C12')
+
 PENDING = ['C02', 'C03', 'C04', 'C05', 'C06', 'C07', 'C08', 'C10', 'C11', 'C12', 'C14', 'C15', 'C16', 'C17', 'C18',
            'C19', 'C20']
 
